@@ -70,6 +70,14 @@ class Ctx:
         self._current = None  # failures of the case being judged (used by the hypothesis driver)
 
     # -- bookkeeping -------------------------------------------------------------------------
+    def skip(self):
+        """True when the library stopped returning in this process: judging further cases would only
+        repeat the same 30 s wait; the run is marked truncated and the hang already is a recorded failure."""
+        if hanging():
+            self.truncated = True
+            return True
+        return self.out_of_time()
+
     def count(self, case, nontrivial, classes=(), n=1, sample=None, stratum=""):
         """Register one judged case.  ``case`` identifies it (distinctness), ``sample`` is what is
         written out if the case is drawn as an evidence sample (defaults to the case itself)."""
@@ -234,7 +242,7 @@ def run_hypothesis(ctx, strategy, body, max_examples, shard=0, salt=0, shrink_bu
     @settings(max_examples=max_examples, phases=[Phase.generate], **common)
     @given(strategy)
     def collect(case):
-        if ctx.out_of_time():
+        if ctx.skip():
             return
         ctx._current = []
         try:
@@ -332,6 +340,62 @@ class Silence:
     def __exit__(self, *exc):
         sys.stdout.close()
         sys.stdout = self._stdout
+        return False
+
+
+HANGS = 0  # per process: after two hangs the remaining cases of this process are skipped (run marked truncated)
+
+
+def hanging():
+    return HANGS >= 2
+
+
+class NoResult(Exception):
+    """The library did not return within the (very generous) limit."""
+
+
+class TimeLimit:
+    """Watchdog around one call into the library.  Normal calls take milliseconds; the limit is
+    thousands of times that, so it only ever fires on a non-terminating computation, which the
+    checks report as "no result" for a documented input (never as a timing judgement)."""
+
+    def __init__(self, seconds=30):
+        self.seconds = seconds
+
+    def _fire(self, signum, frame):  # pylint: disable=unused-argument
+        global HANGS
+        HANGS += 1
+        raise NoResult(f"no result within {self.seconds} s")
+
+    def __enter__(self):
+        import signal
+
+        self._old = signal.signal(signal.SIGALRM, self._fire)
+        signal.setitimer(signal.ITIMER_REAL, self.seconds)
+        return self
+
+    def __exit__(self, *exc):
+        import signal
+
+        signal.setitimer(signal.ITIMER_REAL, 0)
+        signal.signal(signal.SIGALRM, self._old)
+        return False
+
+
+class Guard:
+    """Silence + TimeLimit, the standard wrapper around a call into formulae."""
+
+    def __init__(self, seconds=30):
+        self.s, self.t = Silence(), TimeLimit(seconds)
+
+    def __enter__(self):
+        self.s.__enter__()
+        self.t.__enter__()
+        return self
+
+    def __exit__(self, *exc):
+        self.t.__exit__(*exc)
+        self.s.__exit__(*exc)
         return False
 
 
